@@ -330,3 +330,14 @@ FUNCS.update({
     'combined_grad': lambda h: MatVal(h.get_grad()),
     'bytes_of': lambda t: 0 if t is None else t.nelement() * t.element_size(),
 })
+
+try:   # names of the repository's enums / classes that contracts mention
+    import torch as _torch
+    from kfac.enums import AllreduceMethod, AssignmentStrategy, ComputeMethod, DistributedStrategy
+    from kfac.layers.eigen import KFACEigenLayer
+    from kfac.layers.inverse import KFACInverseLayer
+    FUNCS.update({'AllreduceMethod': AllreduceMethod, 'AssignmentStrategy': AssignmentStrategy,
+                  'ComputeMethod': ComputeMethod, 'DistributedStrategy': DistributedStrategy,
+                  'KFACEigenLayer': KFACEigenLayer, 'KFACInverseLayer': KFACInverseLayer, 'torch': _torch})
+except ImportError:
+    pass
